@@ -519,3 +519,163 @@ def _s_tsm(sc, cls):
 
 SCOPE = {t: {"ints": [0, 1, 2, 3, 4]} for t in (f"{OP}.crossover:splice_test_case_chromosomes", f"{TCC}.cross_over")}
 SEARCH_BUDGET = 400
+
+
+# ==== bounded stand-in: the two cache layers (values in the ComputationCache, execution result on the chromosome) on real
+#      executions, including queries during which the executor raises (TestCaseExecutor.execute documents RuntimeError) ==========
+import itertools  # noqa: E402
+
+from pyvc.bounded import Part, guarded  # noqa: E402
+
+
+def _check_faulty(part: Part, tier, seed):
+    import importlib, logging, shutil, sys, tempfile  # noqa: E401
+    from pathlib import Path
+    import libcst as cst
+    import pynguin.configuration as config
+    import pynguin.ga.computations as ff
+    import pynguin.ga.testcasechromosome as tcc
+    import pynguin.ga.testsuitechromosome as tsc
+    import pynguin.testcase.testcase as tc
+    from pynguin.instrumentation.machinery import install_import_hook
+    from pynguin.instrumentation.tracer import SubjectProperties
+    from pynguin.testcase.execution import TestCaseExecutor
+    from pynguin.utils.naming import get_module_alias
+    from .c10 import _C10_MODULE, _C10_SOURCE, _C10_TESTS
+    logging.disable(logging.CRITICAL)
+    workdir = Path(tempfile.mkdtemp(prefix="c12_"))
+    (workdir / f"{_C10_MODULE}.py").write_text(_C10_SOURCE)
+    sys.path.insert(0, str(workdir))
+    saved = config.configuration.module_name
+    config.configuration.module_name = _C10_MODULE
+    sp = SubjectProperties()
+    hook = install_import_hook(_C10_MODULE, sp, coverage_metrics={config.CoverageMetric.BRANCH, config.CoverageMetric.LINE})
+    hook.__enter__()
+
+    class Faulty(TestCaseExecutor):
+        """the real executor; execute() raises RuntimeError when the countdown reaches zero"""
+        countdown = -1
+
+        def execute(self, test_case):
+            Faulty.countdown -= 1          # (countdown k > 0: the k-th execution from now raises; 0 or negative: none does)
+            if Faulty.countdown == 0:
+                raise RuntimeError("injected: something went wrong inside the executor")
+            return super().execute(test_case)
+    try:
+        with sp.instrumentation_tracer:
+            sys.modules.pop(_C10_MODULE, None)
+            importlib.import_module(_C10_MODULE)
+        sp.instrumentation_tracer.store_import_trace()
+        executor = Faulty(sp, maximum_test_execution_timeout=2, test_execution_time_per_statement=2)
+        m = get_module_alias(_C10_MODULE)
+        names = ["pos", "neg", "spin3", "raise", "calm"]
+
+        def test_case(name):
+            t = tc.TestCase()
+            for var, rhs in _C10_TESTS[name]:
+                t.add_statement(tc.Statement(node=cst.parse_module(f"{var} = {rhs.format(m=m)}\n").body[0], bound_variable=var, bound_type=None))
+            return t
+        import pynguin.ga.coveragegoals as bg
+        goals_ff = list(bg.create_branch_coverage_fitness_functions(executor, bg.BranchGoalPool(sp)))     # one per branch goal
+        cov_case = [ff.TestCaseBranchCoverageFunction(executor), ff.TestCaseLineCoverageFunction(executor)]
+        suite_ff = [ff.BranchDistanceTestSuiteFitnessFunction(executor), ff.LineTestSuiteFitnessFunction(executor)]
+        cov_suite = [ff.TestSuiteBranchCoverageFunction(executor), ff.TestSuiteLineCoverageFunction(executor)]
+
+        def observe(c, fns, covs):
+            return ([c.get_fitness_for(f) for f in fns], [c.get_is_covered(f) for f in fns], [c.get_coverage_for(g) for g in covs], c.get_fitness())
+
+        def fresh_case(name):
+            c = tcc.TestCaseChromosome(test_case=test_case(name))
+            for f in goals_ff:
+                c.add_fitness_function(f)
+            for g in cov_case:
+                c.add_coverage_function(g)
+            return c
+
+        def fresh_suite(ns):
+            s = tsc.TestSuiteChromosome()
+            for n in ns:
+                s.add_test_case_chromosome(tcc.TestCaseChromosome(test_case=test_case(n)))
+            for f in suite_ff:
+                s.add_fitness_function(f)
+            for g in cov_suite:
+                s.add_coverage_function(g)
+            return s
+        queries = {"get_fitness": lambda c, fns, covs: c.get_fitness(), "get_fitness_for": lambda c, fns, covs: c.get_fitness_for(fns[0]),
+                   "get_is_covered": lambda c, fns, covs: c.get_is_covered(fns[-1]), "get_coverage_for": lambda c, fns, covs: c.get_coverage_for(covs[-1])}
+        Faulty.countdown = -1
+        reference = {n: observe(fresh_case(n), goals_ff, cov_case) for n in names}
+        # test case chromosomes: evaluate, change the test (as crossover / mutation do: new test case, flag up), query with a
+        # fault at the k-th execution, query everything again, compare with a chromosome built from scratch
+        for a, b in itertools.permutations(names, 2):
+            for qn, q in queries.items():
+                for fault_at in (0, 1):
+                    part.case()
+                    c = fresh_case(a)
+                    observe(c, goals_ff, cov_case)
+                    c.test_case = test_case(b)
+                    c.changed = True
+                    Faulty.countdown = fault_at
+                    failed = False
+                    try:
+                        q(c, goals_ff, cov_case)
+                    except RuntimeError:
+                        failed = True
+                    Faulty.countdown = -1
+                    got = observe(c, goals_ff, cov_case)
+                    if got != reference[b]:
+                        part.violation("every fitness, covered verdict and coverage value returned for a chromosome equals the value "
+                                       "recomputed from scratch on the chromosome's current tests",
+                                       "stale-after-" + ("failed-query" if failed else "query") + ":test-case",
+                                       {"history": [f"evaluate {a}", f"replace the test by {b} (changed = True)",
+                                                    f"{qn}() " + ("during which executor.execute raised RuntimeError" if failed else "(no fault)"),
+                                                    "query all values"], "returned": repr(got)[:300], "from_scratch": repr(reference[b])[:300]},
+                                       target=f"{CC}:ComputationCache._check_cache")
+        # suites: the same with one member replaced
+        pairs = [("pos", "neg"), ("spin3", "calm"), ("raise", "pos")]
+        for (x, y), repl in itertools.product(pairs, ("neg", "spin3", "raise")):
+            for qn, q in queries.items():
+                for fault_at in (0, 1, 2):
+                    part.case()
+                    s = fresh_suite([x, y])
+                    observe(s, suite_ff, cov_suite)
+                    s.set_test_case_chromosome(1, tcc.TestCaseChromosome(test_case=test_case(repl)))
+                    Faulty.countdown = fault_at
+                    failed = False
+                    try:
+                        q(s, suite_ff, cov_suite)
+                    except RuntimeError:
+                        failed = True
+                    Faulty.countdown = -1
+                    got = observe(s, suite_ff, cov_suite)
+                    want = observe(fresh_suite([x, repl]), suite_ff, cov_suite)
+                    if got != want:
+                        part.violation("every fitness, covered verdict and coverage value returned for a chromosome equals the value "
+                                       "recomputed from scratch on the chromosome's current tests",
+                                       "stale-after-" + ("failed-query" if failed else "query") + ":suite",
+                                       {"history": [f"evaluate suite [{x}, {y}]", f"replace member 1 by {repl}",
+                                                    f"{qn}() " + ("during which executor.execute raised RuntimeError" if failed else "(no fault)"),
+                                                    "query all values"], "returned": repr(got)[:300], "from_scratch": repr(want)[:300]},
+                                       target=f"{CC}:ComputationCache._check_cache")
+    finally:
+        hook.__exit__(None, None, None)
+        sys.modules.pop(_C10_MODULE, None)
+        sys.path.remove(str(workdir))
+        shutil.rmtree(workdir, ignore_errors=True)
+        config.configuration.module_name = saved
+        logging.disable(logging.NOTSET)
+
+
+def bounded_faulty(tier, seed):
+    p = Part("C12", "real-executions-with-faults",
+             [f"{CC}:ComputationCache._check_cache", "pynguin.ga.computations:TestCaseChromosomeComputation._run_test_case_chromosome",
+              "pynguin.ga.computations:TestSuiteChromosomeComputation._run_test_suite_chromosome"],
+             scope="real execution-based fitness / coverage functions on a real instrumented executor: test case chromosomes (20 ordered "
+                   "pairs of 5 test cases) and two-member suites (9) are evaluated, changed, queried through each of the 4 query "
+                   "methods with executor.execute raising RuntimeError at the 1st / 2nd (3rd) execution or not at all, then every "
+                   "value is queried again and compared with a chromosome built from scratch",
+             bound="5 test cases, one change, one fault per history")
+    return guarded(p, _check_faulty, tier, seed)
+
+
+BOUNDED = [bounded_faulty]
